@@ -264,7 +264,7 @@ struct Engine {
     std::vector<uint64_t> caught;
     std::set<uint64_t> rethrown;
     std::set<uint64_t> liveOSS;
-    uint64_t fakeVT = 0, errnoAddr = 0;
+    uint64_t fakeVT = 0, fakeVTss = 0, errnoAddr = 0;
     Stats st;
     uint64_t instrBudget = 20000000;
     uint64_t pathInstr = 0;
@@ -456,12 +456,14 @@ struct Engine {
         }
         memcpy(p, &o->data[off], n);
     }
+    // C string for a native: symbolic bytes are concretised (one path per feasible byte value)
     std::string readCStr(uint64_t addr)
     {
         std::string s;
+        Type *i8 = Type::getInt8Ty(M->getContext());
         for (;;) {
-            char ch;
-            readBytes(addr++, &ch, 1);
+            Val x = load(addr++, i8);
+            char ch = (char)(x.isC() ? x.u() : concretize(x, 8, "byte of a C string read by a native"));
             if (!ch)
                 break;
             s.push_back(ch);
@@ -2307,6 +2309,8 @@ static void initExternGlobals(Engine &E)
     }
     E.fakeVT = E.alloc(64, 0, "fake ostringstream vtable");
     E.wr64(E.fakeVT, 112);
+    E.fakeVTss = E.alloc(64, 0, "fake stringstream vtable");
+    E.wr64(E.fakeVTss, 128);
     E.errnoAddr = E.alloc(4, 0, "errno");
     if (GlobalVariable *g = E.M->getGlobalVariable("__libc_single_threaded")) {
         uint8_t one = 1;
